@@ -1,6 +1,6 @@
 """step(K): build the symbolic pre-state and request for one request kind and discrete shape (spec), run the real `execute`."""
 import z3
-from .engine import Adt, U, some, NONE, Coin, EMPTY, f_uuid_ok, f_uuid_hyph, f_dec_ok, f_dec_n, f_dec_d, f_addr_ok
+from .engine import Adt, U, some, NONE, Coin, EMPTY, Opaque, f_uuid_ok, f_uuid_hyph, f_dec_ok, f_dec_n, f_dec_d, f_addr_ok
 from . import world as W
 
 ASK_KINDS = ['CancelAsk', 'ExpireAsk', 'RejectAskNone', 'RejectAskSome']
@@ -9,7 +9,7 @@ ALL_KINDS = ASK_KINDS + BID_KINDS + ['ApproveAsk', 'CreateAsk', 'CreateBid', 'Ex
 
 
 def label(spec):
-    return ' '.join('%s=%s' % (k, spec[k]) for k in sorted(spec))
+    return ' '.join('%s=%s' % (k, spec[k]) for k in sorted(spec) if not k.startswith('_'))
 
 
 def default_spec(kind, **kw):
@@ -251,8 +251,83 @@ def run_second(sc, path, spec2, PX='req2'):
 
 
 # ------------------------------------------------------------------ histories from the empty book (BMC along accepted requests, independent of Inv)
-def history_templates(tier):
+MOD_NAMES = ['approvers', 'executors', 'ask_fee_rate', 'ask_fee_account', 'bid_fee_rate', 'bid_fee_account', 'ask_required_attributes', 'bid_required_attributes']
+
+
+def history_templates_roles(tier):
+    """C05 from the empty store: the role lists are replaced by an accepted configuration change (or were installed by instantiate),
+    then every privileged request kind is tried by an arbitrary sender; the reference is the configuration and book actually stored."""
+    S = default_spec
+    swap = lambda *names: S('ModifyContract', mod=tuple((n, n in names) for n in MOD_NAMES), lens=(('approvers', 1), ('executors', 1)))
+    T = []
+    nofee = dict(cfg_ask_fee=False, cfg_bid_fee=False)
+    for last in ('ExpireAsk', 'CancelAsk') + (('RejectAskNone', 'RejectAskSome') if tier == 'thorough' else ()):
+        T.append(dict(name='roles: create ask, replace executors, %s' % last, cfg=nofee, steps=[S('CreateAsk', nfunds=1), swap('executors'), S(last)]))
+    for last in ('ExpireBid', 'CancelBid') + (('RejectBidNone', 'RejectBidSome') if tier == 'thorough' else ()):
+        T.append(dict(name='roles: create bid, replace executors, %s' % last, cfg=nofee, steps=[S('CreateBid', nfunds=1), swap('executors'), S(last)]))
+    T.append(dict(name='roles: replace approvers and executors, create ask, approve', cfg=nofee, steps=[swap('approvers', 'executors'), S('CreateAsk', nfunds=1), S('ApproveAsk', nfunds=1)]))
+    T.append(dict(name='roles: create ask and bid, replace executors, match', cfg=nofee, steps=[S('CreateAsk', nfunds=1), S('CreateBid', nfunds=1), swap('executors'), S('ExecuteMatch')]))
+    T.append(dict(name='roles: replace executors twice', cfg=nofee, steps=[swap('executors'), swap('executors', 'approvers')]))
+    return [dict(kind='History', **t) for t in T]
+
+
+def history_templates_steps(tier, pid):
+    """per-operation statements re-decided on states REACHED from the empty store (no state invariant assumed): the property's obligations
+    are evaluated on the last request of each template, over its accepted and its refused paths."""
+    S = default_spec
+    both, none_, askonly, bidonly = (dict(cfg_ask_fee=True, cfg_bid_fee=True), dict(cfg_ask_fee=False, cfg_bid_fee=False),
+                                     dict(cfg_ask_fee=True, cfg_bid_fee=False), dict(cfg_ask_fee=False, cfg_bid_fee=True))
+    ask, bid, bidf = S('CreateAsk', nfunds=1), S('CreateBid', nfunds=1), S('CreateBid', nfunds=1, reqfee=True)
+    appr, match = S('ApproveAsk', nfunds=1), S('ExecuteMatch')
+    T = []
+    add = lambda name, cfg, steps: T.append(dict(name='reached: ' + name, cfg=cfg, steps=steps, per_step=True))
+    if pid in ('C02', 'C03', 'C09', 'C17', 'C11'):
+        add('ask and fee-bearing bid, match', both, [ask, bidf, match])
+        add('approved convertible ask and bid, match', askonly, [ask, appr, bid, match])
+        add('approvers replaced by a migration between approval and match', none_, [ask, appr, migrate_step(approvers=True), bid, match])
+        add('bid fee account changed between bid and match', bidonly, [bidf, S('ModifyContract', mod=tuple((n, n == 'bid_fee_account') for n in MOD_NAMES)), ask, match])
+        if tier == 'thorough':
+            add('second match on the partially filled orders', both, [ask, bidf, match, match])
+            add('match after a partial reject of the bid', bidonly, [bidf, S('RejectBidSome'), ask, match])
+    if pid in ('C04', 'C09', 'C17', 'C11', 'C08'):
+        if pid != 'C08':
+            add('fee-bearing bid partially rejected, then cancelled', bidonly, [bidf, S('RejectBidSome'), S('CancelBid')])
+            add('fee-bearing bid partially rejected, then the rest rejected by size', bidonly, [bidf, S('RejectBidSome'), S('RejectBidSome')])
+            add('fee-bearing bid partially filled, then expired', bidonly, [bidf, ask, match, S('ExpireBid')])
+        add('approved convertible ask partially rejected, then cancelled', none_, [ask, appr, S('RejectAskSome'), S('CancelAsk')])
+        add('approved convertible ask partially rejected, then the rest rejected by size', none_, [ask, appr, S('RejectAskSome'), S('RejectAskSome')])
+    if pid == 'C08':
+        add('approved convertible ask approved again', none_, [ask, appr, appr])
+        add('approved convertible ask partially filled, then expired', none_, [ask, appr, bid, match, S('ExpireAsk')])
+    if pid == 'C07':
+        add('second ask under the id of the first', none_, [ask, ask])
+        add('second bid under the id of the first', bidonly, [bidf, bidf])
+        add('ask under the id of a cancelled ask', none_, [ask, S('CancelAsk'), ask])
+    if pid == 'C16':
+        Q = lambda q: dict(kind='Query', q=q, nfunds=0)
+        add('fee-bearing bid partially rejected, rest rejected by size, then queried', bidonly, [bidf, S('RejectBidSome'), S('RejectBidSome'), Q('GetBid')])
+        add('ask and bid matched, bid queried', both, [ask, bidf, match, Q('GetBid')])
+        add('ask and bid matched, ask queried', both, [ask, bidf, match, Q('GetAsk')])
+        add('approved convertible ask partially rejected, then queried', none_, [ask, appr, S('RejectAskSome'), Q('GetAsk')])
+        add('bid cancelled, then queried', none_, [bid, S('CancelBid'), Q('GetBid')])
+        add('configuration changed, then queried', both, [S('ModifyContract', mod=tuple((n, n in ('executors', 'ask_fee_rate', 'ask_fee_account')) for n in MOD_NAMES), lens=(('executors', 1),)), Q('GetContractInfo')])
+        add('migrated, then version queried', none_, [migrate_step(approvers=True), Q('GetVersionInfo')])
+    if pid == 'C12':
+        swap = lambda *names: S('ModifyContract', mod=tuple((n, n in names) for n in MOD_NAMES), lens=(('approvers', 1), ('executors', 1)))
+        add('ask opened and cancelled, then fees and approvers changed', both, [ask, S('CancelAsk'), swap('approvers', 'ask_fee_rate', 'ask_fee_account')])
+        add('ask open, then fees and approvers changed', both, [ask, swap('approvers', 'ask_fee_rate', 'ask_fee_account')])
+        add('bid open, then bid fee changed', both, [bidf, swap('bid_fee_rate', 'bid_fee_account')])
+        if tier == 'thorough':
+            add('ask and bid matched, then bid fee and approvers changed', both, [ask, bidf, match, swap('approvers', 'bid_fee_rate', 'bid_fee_account')])
+    return [dict(kind='History', **t) for t in T]
+
+
+def history_templates(tier, pid='C01'):
     """sequences of request shapes; every request is fully symbolic, only accepting paths are followed (a refused request is a no-op)"""
+    if pid == 'C05':
+        return history_templates_roles(tier)
+    if pid != 'C01':
+        return history_templates_steps(tier, pid)
     S = default_spec
     T = []
     for af in (False, True):
@@ -289,14 +364,83 @@ def build_history(eng, bounds, hspec):
         if r is not None:
             sc.assume.append(z3.Implies(f_dec_ok(r), z3.And(f_dec_n(r) >= 0, f_dec_n(r) <= f_dec_d(r))))
             sc.assume.append(ireq[side + '_fee_account'] != W.CONTRACT)
+    # the version record instantiate writes is the package's own version: its semver reading is a fact, not a free symbol
+    name_, ver_ = EN.package_info()
+    sc.assume += EN.semver_facts(ver_)
+    sc.shape['semver_facts'] = True
     # every denomination is an ordinary coin in these histories (the mechanism is C10's subject)
     for t in [ireq['base_denom']] + ireq['conv'] + ireq['quotes']:
         sc.assume.append(z3.Not(restricted(t)))
     return sc, ireq
 
 
-def run_history(sc, hspec, ireq, max_paths=12000):
-    """depth-first over accepting paths; yields (list of (req, funds, path)) for every complete accepted history"""
+class HistView:
+    """the scenario as a per-operation property sees it at one step of a history: the configuration and book stored just before the step"""
+
+    def __init__(self, sc, ireq, pre_world, funds):
+        self.__dict__.update(sc.__dict__)
+        self._sc = sc
+        self.world = pre_world
+        self.cfg = pre_world.items.get('contract_info')
+        self.funds = list(funds)
+        precs = sorted(sc.b.precisions, reverse=True)
+        p10 = z3.IntVal(10 ** precs[0])
+        for k in precs[1:]:
+            p10 = z3.If(ireq['P'] == k, z3.IntVal(10 ** k), p10)
+        self.p10 = p10
+        self.sym = dict(sc.sym)
+        self.sym['cfg.increment'] = ireq['I']
+
+    def __getattr__(self, name):
+        return getattr(self._sc, name)
+
+    def cfgf(self, name):
+        return self.ti.get(self.cfg, name)
+
+
+def make_migrate_request(sc, spec, PX):
+    """a symbolic MigrateMsg inside an existing scenario (history step)"""
+    from . import entry as EN
+    ti = sc.ti
+    opt = dict(spec['opt'])
+    req = {'kind': 'Migrate', 'spec': spec}
+
+    def ostr(name, decimal=False):
+        if not opt.get(name):
+            return NONE(), None
+        t = sc.free_decimal_string(PX + '.' + name)[0] if decimal else sc.s(PX + '.' + name)
+        return some(t), t
+
+    def olist(name, role, n):
+        if not opt.get(name):
+            return NONE(), None
+        l = [sc.s('%s.%s%d' % (PX, role, k)) for k in range(n)]
+        return some(l), l
+    vals = {}
+    vals['approvers'], req['approvers'] = olist('approvers', 'approver', spec.get('n_appr_req', 1))
+    vals['ask_fee_rate'], req['ask_fee_rate'] = ostr('ask_fee_rate', True)
+    vals['ask_fee_account'], req['ask_fee_account'] = ostr('ask_fee_account')
+    vals['bid_fee_rate'], req['bid_fee_rate'] = ostr('bid_fee_rate', True)
+    vals['bid_fee_account'], req['bid_fee_account'] = ostr('bid_fee_account')
+    vals['ask_required_attributes'], req['ask_required_attributes'] = olist('ask_required_attributes', 'ask_attr', 1)
+    vals['bid_required_attributes'], req['bid_required_attributes'] = olist('bid_required_attributes', 'bid_attr', 1)
+    req['msg'] = ti.mk('MigrateMsg', **vals)
+    req['sender'] = sc.s(PX + '.sender')
+    req['step'] = {'kind': 'migrate', 'msg': req['msg']}
+    if not sc.shape.get('semver_facts'):
+        name, ver = EN.package_info()
+        sc.assume += EN.semver_facts(ver)
+        sc.shape['semver_facts'] = True
+    return req
+
+
+def migrate_step(**opt):
+    return dict(kind='Migrate', nfunds=0, opt=tuple(sorted(opt.items())), n_appr_req=1)
+
+
+def run_history(sc, hspec, ireq, max_paths=12000, final_all=False):
+    """depth-first over accepting paths; yields (list of (req, funds, path)) for every complete accepted history
+    (final_all: the last request's refused / aborted paths as well, for statements about what must be accepted or refused)"""
     steps = hspec['steps']
 
     def rec(i, world, pc, trail):
@@ -306,16 +450,36 @@ def run_history(sc, hspec, ireq, max_paths=12000):
         spec = dict(steps[i], **hspec['cfg'])
         n0 = len(sc.assume)
         px = 'h%d' % i
-        req = make_request(sc, spec, px)
-        funds0 = sc.funds if hasattr(sc, 'funds') else []
-        info = sc.info(spec['nfunds'], prefix=px)
-        funds = list(sc.funds)
-        extra = sc.assume[n0:]
-        for fin in sc.run_entry('execute', [sc.deps(), sc.env(), info, req['msg']], world=world, pc=list(pc) + extra):
+        if spec['kind'] == 'Migrate':
+            req = make_migrate_request(sc, spec, px)
+            funds = []
+            extra = sc.assume[n0:]
+            it = sc.run_entry('migrate', [sc.deps(), sc.env(), req['msg']], world=world, pc=list(pc) + extra)
+        elif spec['kind'] == 'Query':
+            req = {'kind': 'Query', 'spec': spec, 'q': spec['q'], 'sender': sc.s(px + '.sender')}
+            if spec['q'] in ('GetAsk', 'GetBid'):
+                req['id'] = sc.s(px + '.id')
+                req['msg'] = sc.ti.mk('QueryMsg', spec['q'], id=req['id'])
+            else:
+                req['msg'] = Adt('QueryMsg', spec['q'], [])
+            req['step'] = {'kind': 'query', 'msg': req['msg']}
+            funds = []
+            extra = sc.assume[n0:]
+            qdeps = sc.ti.mk('Deps', storage=Opaque('storage'), api=Opaque('api'), querier=Adt('QuerierWrapper', None, [Opaque('q')]))
+            it = sc.run_entry('query', [qdeps, sc.env(), req['msg']], world=world, pc=list(pc) + extra)
+        else:
+            req = make_request(sc, spec, px)
+            info = sc.info(spec['nfunds'], prefix=px)
+            funds = list(sc.funds)
+            extra = sc.assume[n0:]
+            it = sc.run_entry('execute', [sc.deps(), sc.env(), info, req['msg']], world=world, pc=list(pc) + extra)
+        last = i == len(steps) - 1
+        for fin in it:
             p = W.Path(fin)
-            if p.kind != 'ok':
-                continue
-            yield from rec(i + 1, p.world, p.pc, trail + [(req, funds, p)])
+            if p.kind == 'ok':
+                yield from rec(i + 1, p.world, p.pc, trail + [(req, funds, p)])
+            elif last and final_all and p.kind != 'oob':
+                yield trail + [(req, funds, p)]
     n = 0
     from . import entry as EN
     for p0 in EN.run_instantiate(sc, ireq):
